@@ -30,7 +30,11 @@ func Parse(query string) (Query, error) {
 	}
 
 	trimmed = strings.TrimSuffix(trimmed, ";")
-	lower := strings.ToLower(trimmed)
+	// lower is used to find keyword positions that are then applied to trimmed,
+	// so it must have exactly the same byte length: fold ASCII letters only.
+	// strings.ToLower changes the length of some characters ("Ⱥ" -> "ⱥ") and
+	// replaces invalid bytes, which made those positions run past the end.
+	lower := asciiLower(trimmed)
 	fields := strings.Fields(lower)
 	if len(fields) == 0 {
 		return Query{}, fmt.Errorf("empty query")
@@ -69,7 +73,7 @@ func parseDescribe(fields []string) (Query, error) {
 
 func parseExplain(raw string) (Query, error) {
 	trimmed := strings.TrimSpace(raw)
-	lower := strings.ToLower(trimmed)
+	lower := asciiLower(trimmed)
 	if !strings.HasPrefix(lower, "explain") {
 		return Query{Type: QueryUnknown}, fmt.Errorf("invalid explain")
 	}
@@ -602,6 +606,23 @@ func splitAlias(raw string) (string, string) {
 		}
 	}
 	return raw, ""
+}
+
+// asciiLower lower-cases the ASCII letters of s and leaves every other byte
+// untouched, so the result has the same length and the same byte offsets as s.
+func asciiLower(s string) string {
+	for i := 0; i < len(s); i++ {
+		if c := s[i]; c >= 'A' && c <= 'Z' {
+			b := []byte(s)
+			for j := i; j < len(b); j++ {
+				if c := b[j]; c >= 'A' && c <= 'Z' {
+					b[j] = c + ('a' - 'A')
+				}
+			}
+			return string(b)
+		}
+	}
+	return s
 }
 
 func keywordIndex(lower, keyword string) int {
